@@ -497,7 +497,7 @@ def State.placeSnBody (s : State) (m : List WUpdate) (v : Nat) (r : Rq) (id : Ta
 
 /-- what the validation in `placeSn` establishes -/
 def State.placeFits (s : State) (r : Rq) (w : Nat) : Prop :=
-  ∀ wk A F P, s.worker? w = some wk → wk.assign = .sn A F P → fitsNow F r.entries = true
+  ∀ wk A F P, s.worker? w = some wk → wk.assign = .sn A F P → fitsNow F wk.total r.entries = true
 
 theorem placeSn_ok {s : State} {m : List WUpdate} {v : Nat} {r : Rq} {id : TaskId} {w : Nat} {x : State × List WUpdate}
     (h : s.placeSn m v r id w = .ok x) : s.placeSnBody m v r id w = .ok x ∧ s.placeFits r w := by
